@@ -163,6 +163,7 @@ void ddp_char_string_verkettet(ddpstring *ret, ddpchar c, ddpstring *str) {
 	size_t num_bytes = utf8_char_to_string(temp, c);
 	if (num_bytes == (size_t)-1) { // if c is invalid utf8, we return simply a copy of str
 		num_bytes = 0;
+		temp[0] = '\0'; // nothing was written to temp
 	}
 
 	if (ddp_string_empty(str)) {
@@ -188,6 +189,7 @@ void ddp_string_char_verkettet(ddpstring *ret, ddpstring *str, ddpchar c) {
 	size_t num_bytes = utf8_char_to_string(temp, c);
 	if (num_bytes == (size_t)-1) { // if c is invalid utf8, we return simply a copy of str
 		num_bytes = 0;
+		temp[0] = '\0'; // nothing was written to temp
 	}
 
 	if (ddp_string_empty(str)) {
